@@ -236,7 +236,7 @@ func TestCheck(t *testing.T) {
 	rec = mon.Open("C12")
 	defer rec.Close()
 	rec.Note("rule", "a case is one topology run against the real managers in a synctest bubble: 0-4 runners drawn from {nil, error, context.Canceled, wrapped Canceled, block-until-cancel (returning nil / an error / ctx.Err), gate-released (nil / error)} finishing in a seeded order, parent context cancelled or not; for the closer manager additionally 0-4 closers of the four accepted types with seeded durations and errors, grace period unset / generous / exceeded, Close before / during / after Run (repeated, concurrent), AddCloser during the run and AddCloser parked at its decision point while Run enters the closing phase, unsupported closer types. The sequence-stamped event log is judged offline. Non-trivial = at least one runner or closer; distinct = distinct topology description.")
-	rec.Note("require", []string{"runner.first_return_cancels_others", "runner.parent_cancel", "closer.fatal_fired", "closer.fatal_not_fired", "closer.close_during_run", "closer.close_before_run", "closer.concurrent_close", "closer.addcloser_during_run", "placed.addcloser_parked", "closer.unsupported_type_rejected", "join.errors_checked", "closer.addcloser_from_a_running_closer_refused", "closer.returns_context_canceled", "parent_end.cancel", "parent_end.deadline", "parent_end.cause", "parent_end.already-ended", "racing.addcloser_accepted", "racing.addcloser_rejected", "shared_slice.managers_start_their_own_runners"})
+	rec.Note("require", []string{"runner.first_return_cancels_others", "runner.parent_cancel", "closer.fatal_fired", "closer.fatal_not_fired", "closer.close_during_run", "closer.close_before_run", "closer.concurrent_close", "closer.addcloser_during_run", "placed.addcloser_parked", "closer.unsupported_type_rejected", "closer.all_runners_registered_with_add", "join.errors_checked", "closer.addcloser_from_a_running_closer_refused", "closer.returns_context_canceled", "parent_end.cancel", "parent_end.deadline", "parent_end.cause", "parent_end.already-ended", "racing.addcloser_accepted", "racing.addcloser_rejected", "shared_slice.managers_start_their_own_runners"})
 	ps := plans()
 	rec.Planned(len(ps))
 	for idx, pl := range ps {
@@ -663,11 +663,15 @@ func runCloser(t *testing.T, idx int, rng *mon.RNG, placed bool) {
 	parentKind := rng.PickStr("cancel", "cancel", "deadline", "cause", "already-ended")
 	lateCloser := !placed && rng.Chance(1, 3)
 	order := rng.Intn(1 << 16)
+	ctorRunners := nr
+	if idx%2 == 1 {
+		ctorRunners = (idx / 2) % (nr + 1)
+	}
 	mode := "closer"
 	if placed {
 		mode = "addcloser-placed"
 	}
-	w := &world{idx: idx, mode: mode, desc: fmt.Sprintf("runners=%v closers=%v grace=%s close=%s parentCancel=%v(%s) lateCloser=%v order=%d", ds, cd, graceMode, closeWhen, parentCancel, parentKind, lateCloser, order)}
+	w := &world{idx: idx, mode: mode, desc: fmt.Sprintf("runners=%v closers=%v grace=%s close=%s parentCancel=%v(%s) lateCloser=%v order=%d ctorRunners=%d", ds, cd, graceMode, closeWhen, parentCancel, parentKind, lateCloser, order, ctorRunners)}
 	rec.Begin(idx, w.mode+" "+w.desc)
 	res := mon.Bubble(t, func() {
 		var runners []concurrency.Runner
@@ -680,8 +684,19 @@ func runCloser(t *testing.T, idx int, rng *mon.RNG, placed bool) {
 		}
 		log := logger.NewLogger("c12")
 		log.SetOutputLevel(logger.FatalLevel)
-		m := concurrency.NewRunnerCloserManager(log, gp, runners...)
+		// some (possibly none) of the runners are given to the constructor, the others registered with Add
+		m := concurrency.NewRunnerCloserManager(log, gp, runners[:ctorRunners]...)
 		w.mgr = m
+		if ctorRunners < len(runners) {
+			if err := m.Add(runners[ctorRunners:]...); err != nil {
+				w.violation("closer/add-before-run-rejected", "Add before Run returned "+err.Error())
+				return
+			}
+			rec.Count("closer.runners_registered_with_add", 1)
+			if ctorRunners == 0 {
+				rec.Count("closer.all_runners_registered_with_add", 1)
+			}
+		}
 		m.WithFatalShutdown(func() { w.ev("fatal", 0, nil) })
 		accepted := map[int]bool{}
 		for j, sp := range cs {
